@@ -34,7 +34,7 @@ use crate::pushio::*;
 use crate::*;
 
 pub const PROP: Prop = Prop { name: "C16", gen, run };
-pub const NOPS: usize = 26;
+pub const NOPS: usize = 31;
 
 struct Alpha(Vec<i64>);
 impl Distribution<i64> for Alpha {
@@ -92,7 +92,27 @@ fn run_op(op: usize, seed: u64, data: &[i64]) -> Option<Tree> {
             Err(e) => tl![A(1), a(e.0)],
         }))
     };
+    // a LARGE population (8..47 individuals, all genomes distinct) in which many individuals tie
+    let nbig = 8 + (data.first().copied().unwrap_or(0).unsigned_abs() as usize * 7 + data.len() * 13) % 40;
+    let big: Pop<Score<i64>> = (0..nbig)
+        .map(|i| EcIndividual::new(i as u32, TestResults::<Score<i64>>::from(vec![(i % 3) as i64, ((i / 3) % 2) as i64])))
+        .collect();
+    let sel_big = |spec: Tree| -> Option<Tree> {
+        let mk = || match build::<Score<i64>>(&spec) {
+            Some(Built::Sel(s)) => s,
+            _ => unreachable!(),
+        };
+        Some(triple(seed, mk, |s, rng| match s.select(&big, rng) {
+            Ok(r) => tl![A(0), idx(&big, r)],
+            Err(e) => tl![A(1), a(e.0)],
+        }))
+    };
     Some(match op {
+        26 => sel_big(tl![A(3), A(2)])?,
+        27 => sel_big(tl![A(3), A(3)])?,
+        28 => sel_big(tl![A(4), A(2)])?,
+        29 => sel_big(tl![A(0)])?,
+        30 => sel_big(tl![A(8), tl![A(3), A(2)], A(2), tl![A(8), tl![A(1)], A(1), tl![A(7)]]])?,
         0 => sel(tl![A(0)])?,
         1 => sel(tl![A(1)])?,
         2 => sel(tl![A(2)])?,
